@@ -338,3 +338,62 @@ Theorem circle_spec s n x : Forall alpha s -> Forall alpha x ->
 Proof.
   intros Hs Hx. split; [apply circle_sound|]. intros [Hl <-]. apply circle_complete; auto.
 Qed.
+
+(* ------------------------------------------------------------------ operation histories: lookups mixed with the
+   accessors parser[alias] (loads a pending alias) and getTargetCount (does not) *)
+Definition ans_loaded (t : tables) (o : op) : answer :=
+  match o with
+  | OLookup q => Ans (lookup t q)
+  | OGetItem => Items (bcs t)
+  | OTargetCount => Counts (length (bcs t)) (length (ext t))
+  end.
+
+Lemma run_loaded k t ops :
+  run {| p_k := k; p_pending := None; p_tab := t |} ops = map (ans_loaded t) ops.
+Proof.
+  induction ops as [|o ops IH]; [reflexivity|].
+  cbn [run map]. destruct o as [q| |]; cbn [step ans_loaded].
+  - unfold get. cbn [p_tab p_pending]. destruct (lookup t q) as [a|]; rewrite IH; reflexivity.
+  - unfold getitem. cbn [p_pending p_tab]. rewrite IH. reflexivity.
+  - unfold target_count. cbn [p_tab]. rewrite IH. reflexivity.
+Qed.
+
+(* a pending alias: whatever the interleaving, the first loading operation (lookup or parser[alias]) runs
+   parse + expand k, and from then on the parser answers from expand k (load lines) *)
+Lemma run_lazy lines k tx ops :
+  expand k (load lines) = Ok tx ->
+  map mask (run (lazy_init k lines) ops) = map mask (map (ans_loaded tx) ops).
+Proof.
+  intros Hx. induction ops as [|o ops IH]; [reflexivity|].
+  cbn [run map]. destruct o as [q| |]; cbn [step ans_loaded].
+  - unfold get, lazy_init. cbn [p_tab p_pending p_k].
+    change (lookup empty_tables q) with (@None hit).
+    change (load_into empty_tables lines) with (load lines). rewrite Hx.
+    rewrite run_loaded. reflexivity.
+  - unfold getitem, lazy_init. cbn [p_tab p_pending p_k].
+    change (load_into empty_tables lines) with (load lines). rewrite Hx.
+    rewrite run_loaded. reflexivity.
+  - unfold target_count. cbn [map mask]. f_equal. exact IH.
+Qed.
+
+Theorem lazy_eq_eager_ops lines k ops :
+  exists p, eager_init k lines = Some p /\
+            map mask (run (lazy_init k lines) ops) = map mask (run p ops).
+Proof.
+  destruct (eager_tables_ok lines k) as (te & tx & H1 & H2 & H3).
+  assert (Hb : bcs te = bcs tx).
+  { destruct (expand_total lines k) as (tx' & Hx' & Hbx). rewrite H2 in Hx'. inversion Hx'; subst tx'.
+    rewrite Hbx. unfold eager_tables in H1. destruct (0 <? k)%nat.
+    - rewrite H2 in H1. inversion H1; subst. exact Hbx.
+    - inversion H1; subst. reflexivity. }
+  unfold eager_init. rewrite H1. eexists. split; [reflexivity|].
+  rewrite run_loaded, (run_lazy lines k tx ops H2), !map_map.
+  apply map_ext. intros [q| |]; cbn [ans_loaded mask]; [rewrite H3|rewrite Hb|]; reflexivity.
+Qed.
+
+(* a history of lookups only is the old state machine *)
+Lemma run_lookups p qs : run p (map OLookup qs) = answers p qs.
+Proof.
+  revert p. induction qs as [|q qs IH]; intros p; [reflexivity|].
+  cbn [map run answers step]. destruct (get p q) as [p' a]. rewrite IH. reflexivity.
+Qed.
